@@ -725,7 +725,7 @@ func main() {
 				"envelope_options": fb.EnvOptions, "envelope_requests": fb.EnvCases,
 				"position_cases": pb.Cases, "position_requests": r.P.Counters["position_requests"], "position_offenders": pb.Offenders, "position_companions": pb.Companions, "position_max_companions_per_request": pb.MaxCompanions, "position_carriers": pb.Carriers,
 				"position_offender_rejected_companions_alone_accepted": r.P.Counters["position_offender_rejected_companions_alone_accepted"],
-				"max_components_per_hostile_request": 2, "totality_groups": len(groups), "totality_cases": totalCases,
+				"max_components_per_hostile_request":                   2, "totality_groups": len(groups), "totality_cases": totalCases,
 				"alloc_budget_bytes": budget, "alloc_max_wellformed_bytes": maxWF, "alloc_wellformed_calibration": calib,
 				"alloc_rule": "budget = 64 x the largest TotalAlloc delta of a well-formed request (40-element slices, 300-byte strings) over all carriers, at least 1 MiB, rounded up to a power of two; measured per batch of 64 request pairs and per request when a batch exceeds it",
 			},
